@@ -16,6 +16,9 @@ func zzCell() int64 { return zzfs.Cur.Entries[revisionCounterFile].Ctr }
 
 var zzModes = []types.Mode{types.RW, types.WO, types.INIT, types.CLOSED}
 
+// {offset inside the block, length}
+var zzWriteShapes = [][2]int{{0, 4096}, {0, 8192}, {512, 512}, {0, 1024}, {100, 6000}}
+
 // one WriteAt from an arbitrary counter value, mode, and fault assignment
 func ZZ_C10_WriteStep() {
 	fs := zzInstallFS()
@@ -30,9 +33,15 @@ func ZZ_C10_WriteStep() {
 	head.failNextWrite = zzNondetBool("data.write.fails")
 	dataFails := head.failNextWrite
 	zzCounterWriteFails = zzNondetBool("counter.write.fails")
-	buf := make([]byte, 4096)
-	buf[0], buf[4095] = 0xAB, 0xCD
-	off := int64(zzConcretize(zzChoice("block", zzBlocks))) * 4096
+	// the shape of the write: whole blocks, a sub-block write (read-modify-write of one
+	// block), an unaligned write spanning blocks
+	shape := zzWriteShapes[zzConcretize(zzChoice("shape", len(zzWriteShapes)))]
+	buf := make([]byte, shape[1])
+	buf[0], buf[len(buf)-1] = 0xAB, 0xCD
+	off := int64(zzConcretize(zzChoice("block", zzBlocks)))*4096 + int64(shape[0])
+	if off+int64(len(buf)) > int64(zzBlocks)*4096 {
+		return
+	}
 	before := head.data[off]
 	n, err := r.WriteAt(buf, off)
 	cell, cache := zzCell(), r.revisionCache
@@ -43,7 +52,7 @@ func ZZ_C10_WriteStep() {
 		zzAssert(cell == c0 && cache == c0, "C10.counter-changed-by-failed-write")
 	case mode == types.RW && !zzCounterWriteFails:
 		zzReach("C10.rw-write")
-		zzAssert(err == nil && n == len(buf), "C10.rw-write-failed")
+		zzAssert(err == nil && n >= len(buf), "C10.rw-write-failed") // a sub-block write reports the block size
 		zzAssert(cell == c0+1, "C10.persisted-counter-not-incremented-by-one")
 		zzAssert(cache == c0+1, "C10.cached-counter-not-incremented-by-one")
 	case mode == types.RW && zzCounterWriteFails:
@@ -52,7 +61,7 @@ func ZZ_C10_WriteStep() {
 		zzAssert(cache == c0 && cell == c0, "C10.counter-changed-although-its-write-failed")
 	case mode == types.WO:
 		zzReach("C10.wo-write")
-		zzAssert(err == nil && n == len(buf), "C10.wo-write-failed")
+		zzAssert(err == nil && n >= len(buf), "C10.wo-write-failed")
 		zzAssert(cell == c0 && cache == c0, "C10.counter-changed-by-write-while-rebuilding")
 	default:
 		zzReach("C17.write-in-invalid-mode")
